@@ -1,4 +1,6 @@
 """C16 -- memoized functions return what the function returns and never share entries."""
+import copy
+import enum
 import itertools
 import os
 import pickle
@@ -10,13 +12,15 @@ from instr import core, diskcache
 ID = 'C16'
 COQ_PROP = 'C16'
 LEVEL = 'proof'
-TRANSLATE = ['argskey']
+TRANSLATE = ['argskey', 'disk']     # disk: Disk.store / Disk.fetch decide how a result is kept (raw number, text, bytes, pickle)
 TRUSTED = [
     'model of cache-key identity: two key tuples address one entry iff their elements are equal including type (what Disk.put does by pickling); checked against Disk.put on every enumerated pair',
     'the abstract store of model/Memo.v stands for Cache.get/set (C03)',
 ]
 ASSUMPTIONS = [
     'wrapped function is deterministic and does not depend on ignored arguments',
+    '"exactly what the function returns" is decided as: same type (not merely ==), same repr, equal, member by member inside tuples/lists/dicts; '
+    'results are picklable values (None, bool, int, IntEnum / int-subclass / float-subclass instances, 0.0 and -0.0, inf, big ints, str, bytes, containers of these)',
     'no other writer stores under the memo keys',
 ]
 
@@ -168,6 +172,151 @@ def correspondence(ctx, res, coqcases, limit):
 
 
 # ---------------------------------------------------------------------------
+# results: what a memoized function may return
+
+
+class Color(enum.IntEnum):
+    RED = 1
+    NONE = 0
+
+
+class Celsius(float):
+    pass
+
+
+class Count(int):
+    pass
+
+
+RESULTS = [None, 0, '', False, (), 0.0, True, -0.0, b'', 1, 1.0, Color.RED, Color.NONE, Celsius(21.5), Celsius(0.0), Count(3), Count(0),
+           2 ** 70, -2 ** 63, float('inf'), 'text', b'\x00\xff', (True, 0, None), (False, -0.0, Color.RED), (Celsius(1.0), Count(1), 1, 1.0, True),
+           [True, None, 0], {'ok': True, 'n': Count(2)}, ((), ('',), (b'',)), frozenset({True})]
+
+
+def fresh_result(i):
+    """A new object equal to RESULTS[i] (so that nothing is decided by object identity)."""
+    return copy.deepcopy(RESULTS[i % len(RESULTS)])
+
+
+def same_result(x, y):
+    """Exactly the same result: same type (True is not 1, Color.RED is not 1, Celsius(0.0) is not 0.0), same repr (-0.0 is not 0.0), equal."""
+    if type(x) is not type(y):
+        return False
+    if isinstance(x, (tuple, list)):
+        return len(x) == len(y) and all(same_result(a, b) for a, b in zip(x, y))
+    if isinstance(x, dict):
+        return list(x) == list(y) and all(same_result(x[k], y[k]) for k in x) and all(same_result(a, b) for a, b in zip(x, y))
+    if isinstance(x, (set, frozenset)):
+        return x == y and sorted(map(describe, x)) == sorted(map(describe, y))
+    return repr(x) == repr(y) and x == y
+
+
+def describe(x):
+    return '%s:%r' % (type(x).__name__, x)
+
+
+MEMO_KINDS = ['cache', 'fanout', 'index', 'django', 'stampede']
+
+
+def result_identity(ctx, res):
+    """Every result of the alphabet through every memoizer, typed on and off: the first call (runs the function), two cached hits,
+    and a hit after time has passed within the expiry time must each return exactly what the function returns."""
+    clock = instr.Clock(1000.0)
+    failing = {}
+    with instr.Installed(clock):
+        for kind in MEMO_KINDS:
+            for typed in (False, True):
+                for expire in ([None] if kind == 'index' else ['default', 50] if kind == 'django' else [50] if kind == 'stampede' else [None, 50]):
+                    d = ctx.scratch('c16i')
+                    fac, store_len, close = make_target(kind, d, clock)
+                    try:
+                        bad = run_result_identity(res, clock, fac, kind, typed, expire, range(len(RESULTS)))
+                    finally:
+                        close()
+                    for sig, i, text in bad:
+                        failing.setdefault((sig, kind), []).append((typed, expire, i, text))
+    for (sig, kind), items in sorted(failing.items()):
+        typed, expire, i, text = items[0]
+        res.violations.append(fw.Violation(sig, '%s memoizer: %s (%d result/configuration pairs fail; results affected: %s)' % (
+            kind, text, len(items), ', '.join(sorted({describe(RESULTS[x[2]]) for x in items}))[:300]),
+            {'check': 'result_identity', 'kind': kind, 'typed': typed, 'expire': expire, 'result_index': i, 'result': describe(RESULTS[i])}))
+    res.extra['result_alphabet'] = [describe(v) for v in RESULTS]
+
+
+def run_result_identity(res, clock, fac, kind, typed, expire, indices):
+    ran = {'n': 0}
+
+    def raw(i, scale=1):
+        ran['n'] += 1
+        return fresh_result(i)
+    f = fac(expire, typed, ())(raw)
+    bad = []
+    clock.set(1000.0)
+    for i in indices:
+        want = fresh_result(i)
+        for rnd in ('first call', 'cached hit', 'second cached hit', 'cached hit 3 s later'):
+            if rnd.endswith('later'):
+                clock.advance(3)
+            before = ran['n']
+            try:
+                got = f(i)
+            except Exception as e:  # noqa: BLE001
+                bad.append(('result_raised', i, 'the %s of a function returning %s raised %r' % (rnd, describe(want), e)))
+                break
+            executed = ran['n'] > before
+            res.count(['result', kind, typed, expire, i, rnd], nontrivial=True)
+            if not same_result(got, want):
+                bad.append(('result_altered:' + ('first_call' if rnd == 'first call' else 'cached_hit'), i,
+                            'the %s of a function returning %s returned %s (typed=%r, expire=%r)' % (rnd, describe(want), describe(got), typed, expire)))
+                break
+            if rnd != 'first call' and executed:
+                bad.append(('repeat_recomputed', i, 'the %s of a function returning %s ran the function again (typed=%r, expire=%r)' % (rnd, describe(want), typed, expire)))
+                break
+    return bad
+
+
+def run_zero_expiry(res, clock, fac, store_len, kind, typed, expire):
+    """An expiry of zero (or below) stores nothing: every call runs the function, returns its result, and leaves no entry."""
+    ran = {'n': 0}
+
+    def raw(i, scale=1):
+        ran['n'] += 1
+        return 'x' * 40000 if i < 0 else fresh_result(i)      # i < 0: a result large enough to be kept in a value file
+    f = fac(expire, typed, ())(raw)
+    bad = []
+    for i in [-1] + list(range(0, len(RESULTS), 4)):
+        for rnd in ('first call', 'repeated call'):
+            before = ran['n']
+            got = f(i)
+            res.count(['zero-expiry', kind, typed, expire, i, rnd], nontrivial=True)
+            if not same_result(got, raw(i)):
+                bad.append(('result_altered:first_call', 'with expire=%r the %s returned %s' % (expire, rnd, describe(got)[:80])))
+            elif ran['n'] - before != 2:
+                bad.append(('zero_expire_stored', 'with expire=%r the %s was served from the cache' % (expire, rnd)))
+            elif store_len() != 0:
+                bad.append(('zero_expire_stored', 'with expire=%r the %s left %d entries in the cache' % (expire, rnd, store_len())))
+            if bad:
+                return bad
+    return bad
+
+
+def zero_expiry(ctx, res):
+    clock = instr.Clock(1000.0)
+    with instr.Installed(clock):
+        for kind, expires in (('cache', [0, -1]), ('fanout', [0, -1]), ('django', [0, -1])):
+            for expire in expires:
+                for typed in (False, True):
+                    d = ctx.scratch('c16z')
+                    fac, store_len, close = make_target(kind, d, clock)
+                    try:
+                        bad = run_zero_expiry(res, clock, fac, store_len, kind, typed, expire)
+                    finally:
+                        close()
+                    for sig, text in bad[:1]:
+                        res.violations.append(fw.Violation(sig, '%s memoizer: %s' % (kind, text), {'check': 'zero_expiry', 'kind': kind, 'typed': typed, 'expire': expire}))
+
+
+# ---------------------------------------------------------------------------
 # wrapper behaviour on the implementation
 
 
@@ -202,8 +351,9 @@ def make_target(kind, d, clock):
 
 def wrapper_runs(ctx, res, nhist, hist_len):
     clock = instr.Clock(1000.0)
-    kinds = ['cache', 'fanout', 'index', 'django', 'stampede']
+    kinds = MEMO_KINDS
     hist_kinds = {}
+    altered = {}
     pool = calls(2, 1)
     with instr.Installed(clock, extra_modules=[]):
         import diskcache.recipes as rec
@@ -221,14 +371,13 @@ def wrapper_runs(ctx, res, nhist, hist_len):
             fac, store_len, close = make_target(kind, d, clock)
             counter = {'n': 0}
 
-            falsy = [None, 0, '', False, (), 0.0]
-
             def result_for(args, kwargs):
-                # every third visible-argument class returns a falsy value (None, 0, '', ...): a wrapper that
-                # tests the cached result for truth or for None would recompute those on every call
+                # three of five visible-argument classes return a value of the result alphabet (falsy values: a wrapper that
+                # tests the cached result for truth or for None would recompute those on every call; bools, enum members,
+                # int/float subclasses, -0.0: a store that keeps only the number would hand back another type)
                 r = repr(vis(args, kwargs, ign))
                 h = sum(map(ord, r))
-                return falsy[h % len(falsy)] if h % 3 == 0 else r
+                return fresh_result(h // 5) if h % 5 < 3 else r
 
             def raw(*args, **kwargs):
                 counter['n'] += 1
@@ -253,10 +402,19 @@ def wrapper_runs(ctx, res, nhist, hist_len):
                 case = {'check': 'wrapper', 'kind': kind, 'typed': typed, 'ignore': list(map(repr, ign)), 'expire': expire,
                         'calls': [[list(map(repr, x)), {k: repr(v) for k, v in y.items()}] for x, y in trace[-6:]]}
                 res.count(['wrap', kind, typed, repr(ign), expire, repr(a), repr(sorted(kw.items())), ran], nontrivial=True)
-                if not (got == want and type(got) is type(want)):
+                if not same_result(got, want):
                     first = stored_by.get(kid, (a, kw))
-                    res.violations.append(fw.Violation(sig_of_pair(first, (a, kw), typed, ign),
-                                                       'memoized call returned another call\'s result: got %s want %s' % (got, want), case))
+                    if vis(first[0], first[1], ign) == vis(a, kw, ign):
+                        # the entry was stored by a call with these very (visible) arguments: not a shared entry, the result itself came back changed
+                        altered[kind] = altered.get(kind, 0) + 1
+                        if altered[kind] <= 1:
+                                res.violations.append(fw.Violation('result_altered:' + ('first_call' if ran else 'cached_hit'),
+                                                               'memoized call (%s) returned %s, the function returns %s' % (
+                                                                   'function ran' if ran else 'served from the cache', describe(got), describe(want)),
+                                                               dict(case, got=describe(got), want=describe(want))))
+                    else:
+                        res.violations.append(fw.Violation(sig_of_pair(first, (a, kw), typed, ign),
+                                                           'memoized call returned another call\'s result: got %s want %s' % (describe(got), describe(want)), case))
                 stores = (expire is None or expire == 'default' or (isinstance(expire, int) and expire > 0))
                 prev = before_store_ok.get(kid)
                 if ran and prev is not None and stores and kind != 'stampede':
@@ -477,14 +635,21 @@ def run(ctx):
     res.rule = ('exhaustive enumeration of call signatures (positional arity <= 2 quick / 3 thorough, <= 2 keywords in both orders) over the alphabet '
                 '{None, 1, 1.0, True, "a", "b", int} x typed x 5 ignore sets: every pair sharing a cache key must have equal visible arguments; '
                 'model key == implementation key on a sample; wrapper histories on Cache/FanoutCache/Index/DjangoCache/memoize_stampede under a '
-                'virtual clock.  non-trivial = at least one argument; distinct = distinct (config, call).')
+                'virtual clock, results drawn from an alphabet of result kinds (None, False/True, 0, 1, 0.0, -0.0, inf, IntEnum members, int and float '
+                'subclass instances, big ints, str, bytes, tuples/list/dict/frozenset containing them) and compared with type identity (same type, same '
+                'repr, equal, member by member); the whole result alphabet through every memoizer x typed x expire: first call, cached hits, a hit 3 s '
+                'later; expire 0 and -1 on Cache/FanoutCache/DjangoCache: every call runs the function and no entry (inline or file-backed) is left.  non-trivial = at least one argument; distinct = distinct (config, call).')
     if ctx.quick:
         cc = enumerate_keys(ctx, res, 2, 2)
         correspondence(ctx, res, cc, 1200)
+        result_identity(ctx, res)
+        zero_expiry(ctx, res)
         wrapper_runs(ctx, res, 25, 30)
     else:
         cc = enumerate_keys(ctx, res, 3, 2)
         correspondence(ctx, res, cc, 6000)
+        result_identity(ctx, res)
+        zero_expiry(ctx, res)
         wrapper_runs(ctx, res, 150, 60)
     res.extra['exhaustive'] = True
     stampede_guard(ctx, res)
@@ -497,6 +662,8 @@ def run(ctx):
 def search(ctx, broken):
     res = fw.Result()
     enumerate_keys(ctx, res, 3, 2)
+    result_identity(ctx, res)
+    zero_expiry(ctx, res)
     wrapper_runs(ctx, res, 60, 40)
     stampede_guard(ctx, res)
     stampede_recompute(ctx, res)
@@ -525,6 +692,39 @@ def replay(payload):
             c.close()
             print('key1 == key2:', ks[0] == ks[1])
             return ks[0] != ks[1]
+        finally:
+            shutil.rmtree(d, ignore_errors=True)
+    if case.get('check') == 'result_identity':
+        import tempfile, shutil
+        d = tempfile.mkdtemp(prefix='c16r-')
+        clock = instr.Clock(1000.0)
+        try:
+            with instr.Installed(clock):
+                fac, _, close = make_target(case['kind'], d, clock)
+                try:
+                    bad = run_result_identity(fw.Result(), clock, fac, case['kind'], case['typed'], case['expire'], [case['result_index']])
+                finally:
+                    close()
+            for sig, i, text in bad:
+                print('MONITOR %s: %s' % (sig, text))
+            print('result %s through %s: %s' % (case['result'], case['kind'], 'returned unchanged' if not bad else 'NOT returned unchanged'))
+            return not bad
+        finally:
+            shutil.rmtree(d, ignore_errors=True)
+    if case.get('check') == 'zero_expiry':
+        import tempfile, shutil
+        d = tempfile.mkdtemp(prefix='c16r-')
+        clock = instr.Clock(1000.0)
+        try:
+            with instr.Installed(clock):
+                fac, store_len, close = make_target(case['kind'], d, clock)
+                try:
+                    bad = run_zero_expiry(fw.Result(), clock, fac, store_len, case['kind'], case['typed'], case['expire'])
+                finally:
+                    close()
+            for sig, text in bad:
+                print('MONITOR %s: %s' % (sig, text))
+            return not bad
         finally:
             shutil.rmtree(d, ignore_errors=True)
     print('replay payload:', payload)
